@@ -38,27 +38,31 @@ SEG_FIELDS = ("baseline_cpu_seconds", "memory_gb", "storage_read_gb")
 
 
 def prepare_segment_fields(prog):
-    """the leading plain assignments of Segment.__init__ (everything before the first compound statement, which selects the
-    scaling law), as a constructor `Segment.fields.__init__(self, baseline_cpu_seconds, memory_gb, storage_read_gb)`.
+    """the top-level plain assignments of Segment.__init__ to the three fields (and to plain local names), in order, as a constructor `Segment.fields.__init__(self, baseline_cpu_seconds, memory_gb, storage_read_gb)`.
     Dropped: the selection of scaling_func from cpu_scaling and the refusal of an unknown law name (not about these fields;
     the extraction refuses if a dropped statement stores to one of the three fields or rebinds one of the three parameters)."""
     from pyvc.extract import register_block, stores_of
     fn = prog.func(f"{MP}:Segment.__init__")
-    kept, rest = [], []
-    for i, st in enumerate(fn.body):
-        if isinstance(st, ast.Expr) and isinstance(st.value, ast.Constant):
-            continue    # docstring
-        if isinstance(st, (ast.Assign, ast.AnnAssign, ast.AugAssign)) and not rest:
+    kept = []
+    for st in fn.body:
+        tgt = None
+        if isinstance(st, ast.Assign) and len(st.targets) == 1:
+            tgt = st.targets[0]
+        elif isinstance(st, ast.AnnAssign) and st.value is not None:
+            tgt = st.target
+        if isinstance(tgt, ast.Attribute) and isinstance(tgt.value, ast.Name) and tgt.value.id == "self" and tgt.attr in SEG_FIELDS:
             kept.append(st)
-        else:
-            rest.append(st)
-    for st in rest:
+            continue
+        if isinstance(tgt, ast.Name):
+            kept.append(st)      # a top-level local (or a rebound parameter) the field assignments may read: executed as written
+            continue
         names, _other = stores_of(st)
         fields = {x.attr for x in ast.walk(st) if isinstance(x, ast.Attribute) and isinstance(x.ctx, (ast.Store, ast.Del))}
         if (names | fields) & set(SEG_FIELDS):
-            raise KeyError(f"{MP}:Segment.__init__: a statement after the leading assignments writes a segment field (contract attachment lost)")
-    if not kept:
-        raise KeyError(f"{MP}:Segment.__init__: no leading assignments (contract attachment lost)")
+            raise KeyError(f"{MP}:Segment.__init__: a statement other than a plain top-level assignment writes a segment field or rebinds "
+                           f"its parameter (contract attachment lost)")
+    if not any(isinstance(x, ast.Attribute) and isinstance(x.ctx, ast.Store) for st in kept for x in ast.walk(st)):
+        raise KeyError(f"{MP}:Segment.__init__: no assignment to the segment fields (contract attachment lost)")
     return register_block(prog, f"{MP}:Segment.__init__", "Segment.fields.__init__", kept, ["self"] + list(SEG_FIELDS), "None")
 
 
